@@ -38,3 +38,16 @@ func (x *Exec) b2iNamed(st *State, b string) string {
 	st.memo["b2i|"+b] = c
 	return c
 }
+
+// needSeqSlice: head/tail of byte-sequence abstractions, tied to slicing.
+func (x *Exec) needSeqSlice() {
+	x.needSeq()
+	if x.d.seen["seqhead"] {
+		return
+	}
+	x.d.fun("seqhead", []string{"Bytes", sInt}, "Bytes")
+	x.d.fun("seqtail", []string{"Bytes", sInt}, "Bytes")
+	x.axioms = append(x.axioms,
+		"(forall ((a (Array Int (_ BitVec 8))) (o Int) (l Int) (n Int)) (! (=> (and (<= 0 n) (<= n l)) (= (seqhead (seq a o l) n) (seq a o n))) :pattern ((seqhead (seq a o l) n))))",
+		"(forall ((a (Array Int (_ BitVec 8))) (o Int) (l Int) (n Int)) (! (=> (and (<= 0 n) (<= n l)) (= (seqtail (seq a o l) n) (seq a (+ o n) (- l n)))) :pattern ((seqtail (seq a o l) n))))")
+}
